@@ -3,7 +3,7 @@
    prints gives the program back. *)
 From Coq Require Import List NArith ZArith Bool String.
 From Verif Require Import common.Sexp sem.JV sem.Syntax c09.FullAst c09.Printer c09.ParseActions c09.ParseFull
-  c09.FullCases c09.RoundTripCases c09.FinLemmas.
+  c09.FullCases c09.RoundTripCases c09.FinLemmas c09.WfAst.
 Import ListNotations.
 
 Lemma rt_family_roundtrip : forall p, In p rt_family -> parse_prog (print_prog p) = PAccept p.
@@ -12,5 +12,9 @@ Proof.
   vm_cast_no_check (eq_refl (map PAccept rt_family)).
 Qed.
 
-Lemma rt_family_size : List.length rt_family = 6196%nat.
+Lemma rt_family_size : N.of_nat (List.length rt_family) = 7516%N.
 Proof. vm_compute. reflexivity. Qed.
+
+(* every program of the family lies in the syntactically described image of the parser *)
+Lemma rt_family_wf : forallb wf_prog rt_family = true.
+Proof. vm_cast_no_check (eq_refl true). Qed.
